@@ -154,6 +154,12 @@ fn run(ctx: &mut Ctx, rep: &mut Report) {
             grid.push(format!("{}{}", base, tail).into_bytes());
         }
     }
+    for labels in 1..=64usize {
+        for tail in ["", "."] {
+            let n: Vec<String> = (0..labels).map(|i| ((b'a' + (i % 26) as u8) as char).to_string()).collect();
+            grid.push(format!("{}{}", n.join("."), tail).into_bytes());
+        }
+    }
     for (i, g) in grid.iter().enumerate() {
         if !ctx.mine(i as u64) {
             continue;
